@@ -1489,7 +1489,7 @@ fn main() {
             let recs = env_n("C07_REC", pick(20_000, 40_000, 150_000));
             let infers = env_n("C07_INFER", pick(8_000, 30_000, 100_000));
             let cycs = env_n("C07_CYC", pick(6_000, 40_000, 60_000));
-            let modsn = env_n("C07_MODS", pick(6_000, 30_000, 60_000));
+            let modsn = env_n("C07_MODS", pick(4_000, 30_000, 60_000));
             let jobs = env_n("C07_JOBS", 4);
             let mut rep = Report::default();
             run_phase("corpus", seed, corpus_files().len() as u64, 64, 1, &mut rep);
